@@ -109,11 +109,14 @@ class Gen:
         self.ndef = 100
         self.qualified = []
         self.local_pkg = False
+        self.defined = []          # names defined so far, anywhere (biases later definitions, calls and extras)
 
     def name_for_call(self):
         r = self.rng
-        if self.qualified and r.random() < 0.35:
+        if self.qualified and r.random() < 0.3:
             return r.choice(self.qualified)
+        if self.defined and r.random() < 0.5:
+            return r.choice(self.defined)
         return r.choice(PLAIN)
 
     def call(self, n=None):
@@ -171,7 +174,9 @@ class Gen:
         x = r.random()
         if x < 0.27:
             self.ndef += 1
-            return ("def", r.choice(DEFNAMES), self.ndef)
+            n = r.choice(self.defined) if (self.defined and r.random() < 0.45) else r.choice(DEFNAMES)
+            self.defined.append(n)
+            return ("def", n, self.ndef)
         if x < 0.55:
             return self.call()
         if x < 0.72:
@@ -191,12 +196,27 @@ class Gen:
         forms = [self.item(0) for _ in range(r.randrange(2, 8))]
         if self.mode == "B" and r.random() < 0.5:
             forms.insert(r.randrange(len(forms) + 1), ("scope", "defn", [self.item(1), ("fail",)]))
+        if r.random() < 0.3:
+            # the same name defined at module level and in two nested scopes, called at every level
+            n = r.choice(DEFNAMES)
+            kinds = ["defn", "fn", "defclass", "lfor"]
+
+            def d():
+                self.ndef += 1
+                self.defined.append(n)
+                return ("def", n, self.ndef)
+            inner = ("scope", r.choice(kinds), [self.call(n), d(), self.call(n), ("scope", r.choice(kinds), [self.call(n)])])
+            outer = ("scope", r.choice(kinds), [d(), self.call(n), inner, self.call(n)])
+            nest = ([d()] if r.random() < 0.5 else []) + [outer, self.call(n)]
+            k = r.randrange(len(forms) + 1)
+            forms[k:k] = nest
         # calls of each name at the end
         names = list(PLAIN)
         r.shuffle(names)
         tail = [self.call(n) for n in names[: r.randrange(4, len(names) + 1)]]
         tail += [self.call(n) for n in sorted(set(self.qualified))[:6]]
-        extra = sorted(set(r.choice(PLAIN + ["A.ma"]) for _ in range(r.randrange(0, 4)))) if r.random() < 0.45 else []
+        pool = (self.defined * 3 + PLAIN + ["A.ma"]) if self.defined else PLAIN + ["A.ma"]
+        extra = sorted(set(r.choice(pool) for _ in range(r.randrange(1, 4)))) if r.random() < 0.45 else []
         return {"mode": self.mode, "forms": forms + tail, "extra": extra, "local_pkg": self.local_pkg}
 
 
